@@ -616,6 +616,7 @@ type Frame struct {
 	fn       *ssa.Function
 	env      map[ssa.Value]Val
 	cells    map[*ssa.Alloc]*Cell
+	lvRep    map[*ssa.Alloc]*ssa.Alloc // per-iteration loop-variable copies -> the loop variable they continue
 	binds    []Val
 	params   []Val
 	defers   []deferRec
